@@ -102,7 +102,7 @@ func init() {
 				// ---- the other peer
 				raw := func(context.Context, string) (net.Conn, error) {
 					if p["mux"] == "1" {
-						return db.VMuxRawDial(id)
+						return muxRawDial(db, id)
 					}
 					for _, l := range vnet.Open(x.ExecID) {
 						if !before[l] && strings.HasPrefix(l, adom+" unix|") {
@@ -177,3 +177,53 @@ func init() {
 		},
 	})
 }
+
+// muxRawDial opens a raw multiplexed stream to the peer's brokered listener id exactly as a brokered dial does (knock,
+// then a new stream), without any transport security on top: what a peer that does not speak TLS would use. It goes
+// through the public API only: the broker's own dialer produces the raw connection, and a capturing TransportCredentials
+// passed as the last dial option receives it instead of a TLS handshake.
+func muxRawDial(b *plugin.GRPCBroker, id uint32) (net.Conn, error) {
+	cap := &captureCreds{got: make(chan net.Conn, 1)}
+	cc, err := b.DialWithOptions(id, grpc.WithTransportCredentials(cap))
+	if err != nil {
+		return nil, err
+	}
+	cc.Connect()
+	t := time.NewTimer(8 * time.Second)
+	defer t.Stop()
+	select {
+	case c := <-cap.got:
+		return &capturedConn{Conn: c, cc: cc}, nil
+	case <-t.C:
+		cc.Close()
+		return nil, fmt.Errorf("no raw connection within 8 s (the knock was not answered)")
+	}
+}
+
+type captureCreds struct{ got chan net.Conn }
+
+func (c *captureCreds) ClientHandshake(ctx context.Context, _ string, raw net.Conn) (net.Conn, credentials.AuthInfo, error) {
+	select {
+	case c.got <- raw:
+		<-ctx.Done() // the harness owns the connection now; gRPC's attempt ends when the ClientConn is closed
+		return nil, nil, fmt.Errorf("raw connection handed to the harness")
+	default:
+		return nil, nil, fmt.Errorf("only the first raw connection is wanted")
+	}
+}
+func (c *captureCreds) ServerHandshake(net.Conn) (net.Conn, credentials.AuthInfo, error) {
+	return nil, nil, fmt.Errorf("client side only")
+}
+func (c *captureCreds) Info() credentials.ProtocolInfo {
+	return credentials.ProtocolInfo{SecurityProtocol: "capture"}
+}
+func (c *captureCreds) Clone() credentials.TransportCredentials { return c }
+func (c *captureCreds) OverrideServerName(string) error         { return nil }
+
+// capturedConn closes the ClientConn that produced the raw connection together with it.
+type capturedConn struct {
+	net.Conn
+	cc *grpc.ClientConn
+}
+
+func (c *capturedConn) Close() error { err := c.Conn.Close(); c.cc.Close(); return err }
